@@ -1130,6 +1130,30 @@ pub fn run(rng: &mut R, out: &mut Out) {
         }
         one_scenario(out, rng, &tx, &ps, 8);
     }
+    // variable-length items hashed into the digests (annex, tapscript leaf, script code) on both sides of each
+    // compact-size boundary: the messages use the consensus length prefix
+    {
+        let mut tx = gen::tx_wide(rng, 2, 2);
+        tx.input[1] = gen::txin(rng, gen::InKind::Issuance, true);
+        let ps: Vec<TxOut> = (0..2).map(|_| gen::txout(rng, false)).collect();
+        let genesis = gen::arr32(rng);
+        for l in [0xfcusize, 0xfd, 0xfe, 0xffff, 0x10000] {
+            out.count("boundary.compact_size");
+            let mut annex = gen::bytes(rng, l);
+            annex[0] = 0x50;
+            let script = elements::Script::from(gen::bytes(rng, l));
+            let qs = vec![
+                Q::TG { idx: 0, ty: SchnorrSighashType::Default, pv: Pv::All, annex: Some(annex), leaf: Leaf::None, codesep: 0xffff_ffff },
+                Q::TS { idx: 1, ty: SchnorrSighashType::All, pv: Pv::All, leaf: Leaf::Script(0xc4, script.clone()) },
+                Q::S { idx: 0, ty: ECDSA_TYPES[0], script: script.clone(), value: gen::value(rng) },
+                Q::L { idx: 1, ty: ECDSA_TYPES[0], script },
+            ];
+            for q in qs {
+                let got = k_sighash(out, &tx, &ps, &genesis, &q);
+                s_oracle(out, &tx, &ps, &genesis, &q, &got);
+            }
+        }
+    }
     let (n_ex, n_rand, n_tab) = if thorough { (150, 6000, 600) } else { (8, 200, 20) };
     for _ in 0..n_ex {
         let (tx, ps) = scenario_tx(rng);
